@@ -11,19 +11,57 @@ import time
 
 HERE = os.path.dirname(os.path.abspath(__file__))
 VERIF = os.path.dirname(HERE)
-REPO = "/repo"
+REPO = os.environ.get("VERIF_REPO", "/repo")
 sys.path.insert(0, HERE)
 from mutants import MUTANTS  # noqa: E402
 
-FLAGS = ["-std=gnu++11", "-I/repo/cola", "-DHAVE_CONFIG_H", "-UNDEBUG", "-w", "-fsyntax-only"]
+FLAGS = ["-std=gnu++11", "-I%s/cola" % REPO, "-DHAVE_CONFIG_H", "-UNDEBUG", "-w", "-fsyntax-only"]
 
 
 def sh(cmd, **kw):
     return subprocess.run(cmd, stdout=subprocess.PIPE, stderr=subprocess.STDOUT, text=True, **kw)
 
 
+def parallel(filt, jobs):
+    """Run the mutants in `jobs` scratch source copies of /repo HEAD (git worktrees under /tmp, removed afterwards); the mutant runs
+    write their evidence to scratch directories, never to /verif/evidence."""
+    import shutil
+    ids = [m["id"] for m in MUTANTS if not filt or any(f in m["id"] or f == m["prop"] for f in filt)]
+    procs = []
+    for k in range(jobs):
+        wt = "/tmp/st_repo_%d" % k
+        sh(["git", "-C", "/repo", "worktree", "remove", "--force", wt])
+        r = sh(["git", "-C", "/repo", "worktree", "add", "-q", "--detach", wt, "HEAD"])
+        if r.returncode != 0:
+            print("cannot create", wt, r.stdout)
+            return 2
+        shutil.copy("/repo/cola/libcola/config.h", wt + "/cola/libcola/config.h")
+        mine = ids[k::jobs]
+        env = dict(os.environ, VERIF_REPO=wt, VERIF_EVIDENCE_DIR="/tmp/st_ev_%d" % k, SELFTEST_IDS=",".join(mine))
+        procs.append((wt, subprocess.Popen([sys.executable, os.path.abspath(__file__)], env=env, stdout=subprocess.PIPE, stderr=subprocess.STDOUT, text=True)))
+    bad = []
+    n = 0
+    for wt, pr in procs:
+        out = pr.communicate()[0]
+        for l in out.splitlines():
+            if " mutants, " in l and "as expected" in l:
+                continue
+            print(l)
+            if " FAIL " in l or "BROKEN-MUTANT" in l:
+                bad.append(l.split()[0])
+            if " expect=" in l or "BROKEN-MUTANT" in l:
+                n += 1
+        sh(["git", "-C", "/repo", "worktree", "remove", "--force", wt])
+        shutil.rmtree("/tmp/st_ev_%s" % wt.rsplit("_", 1)[1], ignore_errors=True)
+    print("%d mutants, %d as expected, %d not: %s" % (n, n - len(bad), len(bad), bad))
+    return 1 if bad else 0
+
+
 def main():
     filt = sys.argv[1:]
+    if filt and filt[0] == "--jobs":
+        return parallel(filt[2:], int(filt[1]))
+    only = set(os.environ.get("SELFTEST_IDS", "").split(",")) - {""}
     st = sh(["git", "-C", REPO, "status", "--porcelain", "--untracked-files=no"]).stdout.strip()
     if st:
         print("refusing to run: /repo has uncommitted changes:\n" + st)
@@ -31,6 +69,8 @@ def main():
     results = []
     for m in MUTANTS:
         if filt and not any(f in m["id"] or f == m["prop"] for f in filt):
+            continue
+        if only and m["id"] not in only:
             continue
         t0 = time.time()
         try:
